@@ -242,7 +242,7 @@ CONFIG = {
         "Go map iteration orders (saveIndex two passes, gcIndex tagged pass and every round of the referrer pass, per Delete queue iteration the Referrers and Remove sets) are explicit choice lists and the theorems quantify over all of them. That the STATES reached by Delete cascades and the GC referrer pass do not depend on the order is C09's theorem, not restated here: the correspondence evaluates the model under two unrelated order streams per history and reports a difference between them (or with Go's own random order) as a failure",
         "AutoSaveIndex is fixed per history (AutoGC may be toggled: OSetAutoGC); with AutoSaveIndex off index.json is only claimed valid/current right after SaveIndex - between saves it may name deleted blobs, as the property's parenthesis allows",
         "encoding/json round trip of index.json / oci-layout and os file operations are exercised by the harness on real directories, not proved; internal/fs/tarfs is modelled at the level of cleaned names and entry kinds (Model/TarFS.v: last entry of a cleaned name wins, regular and sparse members open to their content, other kinds unsupported) and tied by unit cases through a verifhooks re-export; path.Clean is a parameter; archive/tar framing is exercised on eleven archive styles (six written with archive/tar, GNU tar default / PAX sparse 1.0 / PAX sparse 0.1 / old GNU sparse, bsdtar), members of 8 GiB and more are not generated",
-        "the model follows the repaired Delete / gcIndex / resolver.Memory.Tag of /repo main (C09's fixes, Delete's pending/held referrers (fixHold) included); the referrer pass as found (GC hang, F1) is kept behind fixF1=false with result RHang (C08_gc_hang_prefix); os.ReadDir/os.Remove errors of GC's sweep are not modelled; files under blobs/ that are no content are modelled by kind (gc_sweeps_stray) outside the store record; blob files written behind the store's back (OInject) are restricted to non-manifest content in the theorems; Push always passes the bare node descriptor (annotations on the pushed descriptor are not generated)",
+        "the model follows Delete / gcIndex / Tag / resolver.Memory.Tag of the frozen /repo main: C09's fixes (queue-once, pending/held referrers counted by links, referrer pass with subject-manifest test), C07's digest reference for a manifest that loses its last predecessor, C10's removal of references by digest, Tag indexing a manifest before tagging it; the referrer pass as found (GC hang, F1) is kept behind fixF1=false with result RHang (C08_gc_hang_prefix); os.ReadDir/os.Remove errors of GC's sweep are not modelled; files under blobs/ that are no content are modelled by kind (gc_sweeps_stray) outside the store record; blob files written behind the store's back (OInject) are restricted to non-manifest content in the theorems; Push always passes the bare node descriptor (annotations on the pushed descriptor are not generated)",
     ],
     "level_text": "Coq theorems over all histories of Push/Tag/Untag/Delete/GC/SaveIndex/read-write reopen/AutoGC assignment, all universes (DAG, media types, undecodable manifests), all reference names the store accepts and all Go map iteration orders: with AutoSaveIndex (at every quiescent point) or right after SaveIndex the store reloaded from index.json + blobs answers exactly like the running store (tag list incl. Tags(last), tag->descriptor up to the ref-name annotation, Resolve by digest, Exists/Fetch, Predecessors) and every index.json entry points to a stored blob; proved as a store invariant + 'index.json is an order-independent projection of the resolver map' + load-after-save identity, plus 'an archive of the directory gives the os.DirFS view' for tarfs; about executable models that are extracted and run against content/oci and internal/fs/tarfs on random histories over real directories reopened four ways (oci.New, NewFromFS(os.DirFS), NewFromFS(fstest.MapFS), NewFromTar of archives in eleven styles incl. GNU tar / bsdtar sparse members), with an independent reopen/layout/predecessor oracle",
     "level_note": "full for the repaired code (six fix: commits of this property: GC saves index.json; GC keeps digest references; tarfs reads data in place and decodes sparse members; Push leaves no blob it cannot index; Tag refuses digests of other content and invalid UTF-8) plus C09's Delete/gcIndex/resolver fixes; each pre-fix behaviour has a refuted witness or a corpus replay. ORACLE-ONLY clauses (no theorem, the model has no bytes/sizes/JSON): 'oci-layout and index.json parse', 'every blob file is named by the digest of its bytes', 'of the recorded size' (conditional on the size passed to Tag, see assumptions), Fetch returning the bytes, no leftover temporary files, opening does not rewrite index.json. Exists/Fetch equality is by construction in the store model; the tar clause rests on C08_tar_view (abstract names and kinds) + the harness. The three ways of reopening are one model function (loadIndex over an fs.FS): oci.New only adds file creation on a missing layout, NewFromTar adds tarfs. Thorough tier re-evaluates 200 sampled histories inside Coq (vm_compute) against the extracted runner",
